@@ -404,6 +404,13 @@ func c17GenRecover(g *Gen) {
 			emit("H:failed-reload-between", n, d, 1, 0, 2, 0, 1, 0)
 		}
 	}
+	// a pipeline start that takes 3 ms (a queue dir with many chunks): whatever runs beside NewOrchestrator gets its turn
+	for _, n := range []int{2, 4, 8} {
+		emit("H:slow-start", n, 30)
+		emit("H:slow-start", n, 30, 1, 0)
+		emit("H:slow-start", n, 30, 1, 0, 1, 0)
+		emit("H:slow-start", n, 30, 1, 0, 3, 1, 1, 0)
+	}
 	// random schedules
 	for i := 0; i < g.Pick(60, 3000) && !g.aborted; i++ {
 		n := r.PickInt([]int{0, 1, 2, 3, 4, 6, 8, 12})
